@@ -41,6 +41,10 @@ func main() {
 	switch fam {
 	case "coll":
 		err = famColl(w, *seed, *n, *labels, *mode, *replay)
+	case "codec":
+		err = famCodec(w, *seed, *n)
+	case "crash":
+		err = famCrash(w, *seed, *n)
 	case "readonly":
 		err = famReadOnly(w, *seed, *n)
 	case "index":
